@@ -54,7 +54,9 @@ func filterHits(hits []spec.Hit, excluded func(uint64) bool) []spec.Hit {
 	return out
 }
 
-var flagSets = [][3]bool{{false, false, false}, {true, true, false}, {true, true, true}}
+// the first three are the combinations bleve's searchers use; the other five complete the cube
+var flagSets = [][3]bool{{false, false, false}, {true, true, false}, {true, true, true},
+	{false, false, true}, {true, false, false}, {false, true, false}, {true, false, true}, {false, true, true}}
 
 // compareHit checks a returned posting against the model under a flag set.
 func compareHit(p segment.Posting, want *spec.Hit, flags [3]bool) string {
@@ -70,16 +72,18 @@ func compareHit(p segment.Posting, want *spec.Hit, flags [3]bool) string {
 	if p.Number() != want.Doc {
 		return fmt.Sprintf("got doc %d, model doc %d", p.Number(), want.Doc)
 	}
-	if flags[0] || flags[1] || flags[2] {
-		if p.Frequency() != want.Freq {
-			return fmt.Sprintf("doc %d: frequency %d, model %d", want.Doc, p.Frequency(), want.Freq)
-		}
-		if want.Freq > 0 && p.Norm() != want.Norm {
-			return fmt.Sprintf("doc %d: norm %v, model %v", want.Doc, p.Norm(), want.Norm)
-		}
+	// only the details that were asked for are compared
+	if flags[0] && p.Frequency() != want.Freq {
+		return fmt.Sprintf("doc %d: frequency %d, model %d", want.Doc, p.Frequency(), want.Freq)
+	}
+	if flags[1] && want.Freq > 0 && p.Norm() != want.Norm {
+		return fmt.Sprintf("doc %d: norm %v, model %v", want.Doc, p.Norm(), want.Norm)
 	}
 	if flags[2] {
-		if d := spec.DiffHits([]spec.Hit{{Doc: want.Doc, Freq: want.Freq, Norm: want.Norm, Locs: want.Locs}}, []spec.Hit{drive.CopyHit(p)}); d != "" {
+		got := drive.CopyHit(p)
+		w := got
+		w.Doc, w.Locs = want.Doc, want.Locs
+		if d := spec.DiffHits([]spec.Hit{w}, []spec.Hit{got}); d != "" {
 			return d
 		}
 	} else if len(p.Locations()) != 0 {
@@ -346,7 +350,7 @@ func TestC07Enum(t *testing.T) {
 				}
 				for e := 0; e < 1<<n; e++ {
 					for fi := range flagSets {
-						if n > fullN && fi != 2 {
+						if n > fullN && fi != 2 || n > 3 && fi > 2 {
 							continue
 						}
 						for _, field := range []string{"x", "y", "z"} {
@@ -662,7 +666,7 @@ func genReuseCase(t *rapid.T) reuseCase {
 			a.Except = gen.GenDrop(t, al+"ex", nd)
 			a.Pre = rapid.SampledFrom([]int{1, 0, 2}).Draw(t, al+"pre")
 		case "iter":
-			a.Flags = rapid.IntRange(0, 2).Draw(t, al+"flags")
+			a.Flags = rapid.SampledFrom([]int{0, 1, 2, 2, 1, 3, 4, 5, 6, 7}).Draw(t, al+"flags")
 			a.Pre = rapid.SampledFrom([]int{1, 0, 2}).Draw(t, al+"pre")
 		case "advance":
 			a.Delta = uint64(rapid.IntRange(0, 4).Draw(t, al+"delta"))
